@@ -168,3 +168,14 @@ theorem admissible_summarize (v : Variant) (o : Opts) : Admissible (summarize v 
       · exact ⟨i, ds, rfl, rfl⟩
 
 theorem admissible_keepAll : Admissible keepAll := fun i ds => ⟨i, ds, rfl, rfl⟩
+
+theorem DNode.view_i (d : DNode) : d.view.i = d.info := by cases d <;> rfl
+
+/-- the contraction-independent part of the root `info` is the pure bottom-up evaluation -/
+theorem record_core (v : Variant) (o : Opts) (sc : Nat) (t : Tree) :
+    (record v o sc t).info.c = (viewTree v t (rootCursor sc)).1.i.c := by
+  have h1 := (recTree_view v _ (admissible_summarize v o) t (rootCursor sc)).1.1
+  rw [DNode.view_i] at h1
+  exact h1
+
+end MythVerif.DagRec
